@@ -1,13 +1,17 @@
 #!/bin/bash
-# usage: tools/try_mutant.sh <patch.diff> <prop> [scale]   applies the patch to /repo's working tree, runs the quick
-# check, prints the verdict, and always restores /repo afterwards.
-patch=$1; prop=$2; scale=${3:-1.0}
-cd /repo || exit 2
-if [ -n "$(git status --porcelain --untracked-files=no)" ]; then echo "refusing: /repo has uncommitted changes"; exit 2; fi
-git apply "$patch" || { echo "patch does not apply"; exit 2; }
-cd ${VERIF_DIR:-/verif}
-out=$(VERIF_SCALE=$scale ./check $prop quick 2>&1); rc=$?
-git -C /repo checkout -- . 
+# usage: tools/try_mutant.sh <patch.diff> <prop> [scale] [slot]
+# Applies the patch in a scratch worktree of /repo (never in /repo itself), runs the quick check of the property
+# against that worktree (VERIF_REPO), prints the verdict and removes the worktree. Several slots may run in parallel.
+patch=$(readlink -f "$1"); prop=$2; scale=${3:-1.0}; slot=${4:-0}
+V=${VERIF_DIR:-/verif}
+wt=/tmp/mutwt/slot$slot
+mkdir -p /tmp/mutwt
+git -C /repo worktree remove --force $wt >/dev/null 2>&1; rm -rf $wt
+git -C /repo worktree add -q --detach $wt HEAD || exit 2
+git -C $wt apply "$patch" || { echo "patch does not apply"; git -C /repo worktree remove --force $wt; exit 2; }
+cd $V
+out=$(VERIF_REPO=$wt VERIF_SCALE=$scale ./check $prop quick 2>&1); rc=$?
+git -C /repo worktree remove --force $wt >/dev/null 2>&1; git -C /repo worktree prune
 echo "== $patch on $prop: rc=$rc"
 echo "$out" | grep -E "^(VIOLATION|KNOWN|HARNESS|REPRODUCED|summary|OK|pass|determinism)" | head -14
 exit $rc
